@@ -106,6 +106,11 @@ func (s *Solver) define(t *Term) {
 		if _, ok := s.declared[t.name]; !ok {
 			s.send(fmt.Sprintf("(declare-const %s %s)", smtName(t.name), sortStr(t.w)))
 			s.declared[t.name] = s.level
+			// the declared range of an Int input is part of its declaration
+			// (term construction relies on it for static simplification)
+			if t.w == SortInt && t.lo != nil && t.hi != nil {
+				s.send(fmt.Sprintf("(assert (and (<= %s %s) (<= %s %s)))", IntBig(t.lo).ref(), smtName(t.name), smtName(t.name), IntBig(t.hi).ref()))
+			}
 		}
 		return
 	}
@@ -176,7 +181,7 @@ func (s *Solver) checkSat() string {
 		s.maxQ = d
 	}
 	s.queries++
-	if d > 3*time.Second {
+	if d > slowThreshold {
 		fmt.Fprintf(os.Stderr, "slow query #%d: %.1fs -> %s (%s)\n", s.queries, d.Seconds(), line, s.ctx)
 	}
 	switch line {
@@ -398,6 +403,9 @@ func Standalone(pc []*Term, extra *Term) string {
 			if !decl[t.name] {
 				decl[t.name] = true
 				fmt.Fprintf(&sb, "(declare-const %s %s)\n", smtName(t.name), sortStr(t.w))
+				if t.w == SortInt && t.lo != nil && t.hi != nil {
+					fmt.Fprintf(&sb, "(assert (and (<= %s %s) (<= %s %s)))\n", IntBig(t.lo).ref(), smtName(t.name), smtName(t.name), IntBig(t.hi).ref())
+				}
 			}
 			return
 		}
@@ -464,3 +472,12 @@ func (s *Solver) fallback(pc []*Term, extra *Term) string {
 	f.nerr = 0
 	return r
 }
+
+var slowThreshold = func() time.Duration {
+	if v := os.Getenv("SYMGO_SLOW_MS"); v != "" {
+		var ms int
+		fmt.Sscan(v, &ms)
+		return time.Duration(ms) * time.Millisecond
+	}
+	return 3 * time.Second
+}()
